@@ -1225,9 +1225,10 @@ class Inliner:
                 return pre + (body or [_pass(st)])
             if isinstance(st, (ast.If, ast.Assign, ast.Return, ast.Expr,
                                ast.AugAssign, ast.AnnAssign, ast.Assert,
-                               ast.Raise)):
+                               ast.Raise, ast.For)):
                 root = st.test if isinstance(st, (ast.If, ast.Assert)) else \
-                    st.exc if isinstance(st, ast.Raise) else st.value
+                    st.exc if isinstance(st, ast.Raise) else \
+                    st.iter if isinstance(st, ast.For) else st.value
                 if root is None or not _first_evaluated(root, call):
                     return [st]
                 tmp = '%s_result' % tag
